@@ -3,12 +3,13 @@ CONSTANTS
   Mutant = "none"
   SFmts = {"default", "python", "json", "python-full", "bad"}
   TFmts = {"default", "json", "python", "yaml", "toml", "bad"}
-  Indents = {"default", "0", "1", "4"}
+  Indents = {"default", "0", "1", "4", "-1", "17"}
   TxtIds = {"qstr1", "qstr2", "blit", "bboth", "bare", "baresx", "bbad", "bname", "texpo", "texpb", "advb", "advq", "advo"}
-  Argvs = {"ok", "badindent", "toomany", "unknownflag"}
+  Argvs = {"ok", "badindent", "toomany", "unknownflag", "flagafter", "dupflag", "dashdash"}
   SExts = {"any", ".py", ".json", ".yml", ".toml", ".txt", ""}
   TExts = {"any", ".py", ".json", ".yml", ".toml", ".txt", ""}
   Dbgs = {"off", "debug", "inspect"}
+  PrintCross = "full"
 INIT Init
 NEXT Next
 INVARIANT ExecOnlyFull
